@@ -217,6 +217,11 @@ pub fn build<Data: GarnishData>(parse_root: usize, parse_tree: Vec<ParseNode>, d
             // an else jump continues a conditional, with anything else on its left both sides would be evaluated and left pending
             if parse_node.get_definition() == Definition::ElseJump {
                 match parse_node.get_left().and_then(|left| parse_tree.get(left)) {
+                    // a chain continues after a conditional arm, not after a default arm
+                    Some(left) if left.get_definition() == Definition::ElseJump => match left.get_right().and_then(|right| parse_tree.get(right)) {
+                        Some(arm) if arm.get_definition().is_conditional() => {}
+                        _ => Err(CompilerError::new_message("ElseJump cannot follow the default arm of a conditional chain".to_string()))?,
+                    },
                     Some(left) if left.get_definition().is_conditional() => {}
                     _ => Err(CompilerError::new_message("ElseJump must have a conditional on its left".to_string()))?,
                 }
